@@ -168,7 +168,15 @@ impl<'a> SendLastStateProofProcess<'a> {
         //
         // If no sampled headers, we can skip the check for total difficulty
         // since POW checks with continuous checks is enough.
-        if sampled_count != 0 {
+        //
+        // But if no requested difficulty was matched by a block before the last-n blocks,
+        // there are no sampled headers and the last-n headers are not continuous with the
+        // start block, so the check is still required.
+        let is_continuous_with_start = {
+            let start_number: BlockNumber = original_request.get_content().start_number().unpack();
+            last_n_count == 0 || headers[reorg_count].number() == start_number
+        };
+        if sampled_count != 0 || !is_continuous_with_start {
             if let Some(prove_state) = peer_state.get_prove_state() {
                 let prev_last_header = prove_state.get_last_header();
                 let start_header = prev_last_header.header();
@@ -765,10 +773,28 @@ pub(crate) fn check_if_response_is_matched(
     if sampled_count == 0 {
         if last_n_count > 0 {
             // If no sampled headers, the last_n_blocks should be all new blocks.
-            let first_last_n_header_number = headers[reorg_count].header().number();
+            let first_last_n_header = &headers[reorg_count];
+            let first_last_n_header_number = first_last_n_header.header().number();
             let last_last_n_header_number = headers[headers.len() - 1].header().number();
             let last_number = last_header.header().number();
-            if first_last_n_header_number != start_number
+            // If more than `last_n_blocks` blocks are unknown, the server samples blocks; but it
+            // returns no sampled blocks when none of the requested difficulties selects a block
+            // before the first last-n block, then the last-n blocks don't start from the start block.
+            let is_no_sample_matched = last_number.saturating_sub(start_number)
+                > last_n_blocks as BlockNumber
+                && first_last_n_header_number > start_number
+                && last_n_count >= last_n_blocks
+                && {
+                    let previous_total_diff_before_last_n: U256 = first_last_n_header
+                        .parent_chain_root()
+                        .total_difficulty()
+                        .unpack();
+                    prev_request
+                        .difficulties()
+                        .into_iter()
+                        .all(|d| Unpack::<U256>::unpack(&d) > previous_total_diff_before_last_n)
+                };
+            if (first_last_n_header_number != start_number && !is_no_sample_matched)
                 || last_last_n_header_number + 1 != last_number
             {
                 let errmsg = format!(
